@@ -15,7 +15,7 @@ variable {Node VH : Type} [DecidableEq Node] [DecidableEq VH] (H : Hasher Node V
 
 /-- the three stages of the tree walker's run -/
 def twRecon1 (cfg : TWCfg Node) (st0 : Store Node) (p : Path) (O : List (Key × VH)) : TW Node :=
-  ({ (⟨[], st0, [], []⟩ : TW Node) with pos := p ++ [false] } : TW Node).replaceTerminal H cfg (sub O (p ++ [false]))
+  ({ ({ pos := [], store := st0, log := [], cpr := [] } : TW Node) with pos := p ++ [false] } : TW Node).replaceTerminal H cfg (sub O (p ++ [false]))
 
 def twRecon2 (cfg : TWCfg Node) (st0 : Store Node) (p : Path) (O : List (Key × VH)) : TW Node :=
   ({ twRecon1 H cfg st0 p O with pos := p ++ [true] } : TW Node).replaceTerminal H cfg (sub O (p ++ [true]))
@@ -49,9 +49,9 @@ theorem twRecon_facts (hs : H.Sound) {O : List (Key × VH)} (hk : KeysOK O) (cfg
   have hl : ∀ b : Bool, (p ++ [b]).length ≤ 256 := by intro b; simp; omega
   -- stage 1
   obtain ⟨a1p, a1g, a1s, a1f, a1l, a1m, a1c⟩ := tw_replace_spec H (fun _ => True) hs hk cfg
-    ({ (⟨[], st0, [], []⟩ : TW Node) with pos := p ++ [false] } : TW Node) (hl false)
+    ({ ({ pos := [], store := st0, log := [], cpr := [] } : TW Node) with pos := p ++ [false] } : TW Node) (hl false)
   obtain ⟨L0, hid0, hb0⟩ := tw_replace_ids H hs hk cfg
-    ({ (⟨[], st0, [], []⟩ : TW Node) with pos := p ++ [false] } : TW Node) (hl false)
+    ({ ({ pos := [], store := st0, log := [], cpr := [] } : TW Node) with pos := p ++ [false] } : TW Node) (hl false)
   -- stage 2
   obtain ⟨a2p, a2g, a2s, a2f, a2l, a2m, a2c⟩ := tw_replace_spec H (fun _ => True) hs hk cfg
     ({ twRecon1 H cfg st0 p O with pos := p ++ [true] } : TW Node) (hl true)
